@@ -214,7 +214,7 @@ def check_C05(ctx):
                        "(2) spec -> code: every input enumerated by TLC is printed with the output the spec determines and replayed through the REAL ForExpand (verif accessor): identical output classes, "
                        "the call returns, no (*forExpander).run / (*lexer).run goroutine survives. (3) every EQU reference graph on <= 3 names x {operand, ;assert, FOR count, ORG, unused} assembled under a "
                        "deadline: error iff a used name is on a cycle (TLC decides). (4) byte-level fuzz corpus (repository warriors, mutations, soup, invalid UTF-8, NUL, ^Z, CR/LF mixes, unterminated "
-                       "lines; FOR counts tamed) x 7 configurations: TLC checks the terminal-state predicate (returned, err xor warrior, no surviving goroutine, within the deadline). "
+                       "lines; FOR counts tamed) x 7 configurations, and EVERY sequence of up to 3 (quick) / 4 (thorough) source tokens over a 26-token alphabet: TLC checks the terminal-state predicate (returned, err xor warrior, no surviving goroutine, within the deadline). "
                        "distinct_nontrivial = TLC-generated cases replayed + graph scenarios + fuzz inputs.")
     ctx.cov["trusted_base"] = ["class <-> token mapping in harness/fx.go", "goroutine accounting by stack frame (runtime.Stack)", "harness clock (deadline)", "TLC"]
     ctx.assumptions.append("'time proportional to input size' is monitored by a per-case deadline of 10 s (inputs <= 8 KB, typical run < 5 ms); the spec proves termination of the modelled loops only")
@@ -258,11 +258,16 @@ def check_C05(ctx):
     fzp = os.path.join(ctx.sub("fz"), "fz")
     nf = 6000 if ctx.quick else 200000
     crashes += run_restartable(ctx, "fuzz", ["-seed", ctx.seed, "-n", nf, "-repo", REPO], fzp)
-    rej, _ = validate_asm(ctx, [egp + ".000.ndjson", fzp + ".000.ndjson"], "C05")
+    # (5) every sequence of up to L source tokens through the whole pipeline
+    tsp = os.path.join(ctx.sub("ts"), "ts")
+    crashes += run_restartable(ctx, "fuzz", ["-tokseq", 3 if ctx.quick else 4], tsp)
+    nts = count_lines(tsp + ".000.ndjson")
+    ctx.notes["token_sequences_assembled"] = nts
+    rej, _ = validate_asm(ctx, [egp + ".000.ndjson", fzp + ".000.ndjson", tsp + ".000.ndjson"], "C05")
     neg = count_lines(egp + ".000.ndjson")
-    ctx.cov["traces_validated_against_impl"] = total_cases + neg + nf
-    ctx.cov["evaluations"] = total_cases + neg + nf
-    ctx.cov["distinct_nontrivial"] = total_cases + neg + nf
+    ctx.cov["traces_validated_against_impl"] = total_cases + neg + nf + nts
+    ctx.cov["evaluations"] = total_cases + neg + nf + nts
+    ctx.cov["distinct_nontrivial"] = total_cases + neg + nf + nts
     ctx.cov["exhaustive"] = True
     ctx.notes.update(tlc_generated_cases_replayed=total_cases, equ_graph_scenarios=neg, fuzz_inputs=nf, crashed_or_hung=len(crashes))
     ctx.sample(read_line(fzp + ".000.ndjson", 30))
